@@ -168,9 +168,10 @@ impl Space {
     }
 }
 
-/// The 13 offered states of the property's quantifier (the design's 12 plus a signed object the
-/// server cannot deliver).
-const ALPHABET: [Tamper; 13] = [
+/// The 15 offered states of the property's quantifier (the design's 12 plus a signed object the
+/// server cannot deliver and two honest updates beyond what the fetcher holds: a new commit, and a
+/// data ref rolled back to an ancestor).
+const ALPHABET: [Tamper; 15] = [
     Tamper::Honest,
     Tamper::ExtraUnsignedRef,
     Tamper::RefMoved,
@@ -184,6 +185,8 @@ const ALPHABET: [Tamper; 13] = [
     Tamper::Rewound,
     Tamper::Diverged,
     Tamper::SignedObjectMissing,
+    Tamper::AheadV3,
+    Tamper::AheadRollback,
 ];
 
 /// Harness knowledge: the offered namespace cannot be replicated into one that satisfies (a)–(c).
